@@ -548,7 +548,7 @@ func (c *fctx) assignSpecial(e *emitter, ind int, st *ast.AssignStmt) bool {
 				if bv, ok := c.viewOf(call.Args[0]); ok {
 					data = bv.value()
 				} else {
-					data = c.expr(call.Args[0])
+					data = c.sliceOrNil(call.Args[0])
 				}
 				c.useAbstractName("dst_Write", "(dst_Write : δ → (List UInt8) → Go.M (Int × (Option Go.Err) × δ))")
 				t := c.tmp()
